@@ -734,3 +734,225 @@ package collection
 //@ func (*setClass_).Xor
 //@   props C15
 //@   implements SetClassLike.Xor
+
+// ---------------------------------------------------------------- association_ (C03, C14, C16)
+
+// akey(a): the key of association a; the field key_ is never written after construction.
+//@ declare akey(U) U
+//@ model aval U
+
+//@ type *association_
+//@   immutable key_ akey
+//@   modelfield aval this.value_
+
+//@ iface AssociationClassLike.Notation
+//@   nopanic
+//@ iface AssociationClassLike.Make
+//@   nopanic
+//@   ensures fresh(result) && result != nil && akey(result) == key && aval(result) == value
+//@ iface AssociationLike.GetKey
+//@   nopanic
+//@   ensures result == akey(this)
+//@ iface AssociationLike.GetValue
+//@   nopanic
+//@   ensures result == aval(this)
+//@ iface AssociationLike.SetValue
+//@   nopanic
+//@   modifies aval(this)
+//@   ensures aval(this) == value
+
+//@ func (*associationClass_).Make
+//@   props C03 C14 C16
+//@   implements AssociationClassLike.Make
+//@ func (*association_).GetKey
+//@   props C03 C14
+//@   implements AssociationLike.GetKey
+//@ func (*association_).GetValue
+//@   props C03 C14
+//@   implements AssociationLike.GetValue
+//@ func (*association_).SetValue
+//@   props C03 C14
+//@   implements AssociationLike.SetValue
+
+// ---------------------------------------------------------------- map_ (C14)
+
+// kin(s, k): k occurs in s (identity / Go ==); kinw is its Skolem witness.
+//@ declare kin(Seq, U) Bool
+//@ declare kinw(Seq, U) Int
+//@ axiom kin_elim: forall s Seq, k U :: kin(s, k) ==> 0 <= kinw(s, k) && kinw(s, k) < len(s) && s[kinw(s, k)] == k
+//@ axiom kin_intro: forall s Seq, k U, i Int :: 0 <= i && i < len(s) && s[i] == k ==> kin(s, k)
+// kmem(s, k): some association in s has key k; kwit is its Skolem witness.
+//@ declare kmem(Seq, U) Bool
+//@ declare kwit(Seq, U) Int
+//@ axiom kmem_elim: forall s Seq, k U :: kmem(s, k) ==> 0 <= kwit(s, k) && kwit(s, k) < len(s) && akey(s[kwit(s, k)]) == k
+//@ axiom kmem_intro: forall s Seq, k U, i Int :: 0 <= i && i < len(s) && akey(s[i]) == k ==> kmem(s, k)
+
+//@ define distinct(s) := forall i, j :: 0 <= i && i < j && j < len(s) ==> s[i] != s[j]
+//@ define ukeys(s) := forall i, j :: 0 <= i && i < j && j < len(s) ==> akey(s[i]) != akey(s[j])
+
+//@ iface MapClassLike.Notation
+//@   nopanic
+//@ iface MapClassLike.Make
+//@   nopanic
+//@   ensures fresh(result) && result != nil && card(result) == 0 && (forall k U :: !dom(result, k))
+//@ iface MapClassLike.MakeFromMap
+//@   nopanic
+//@   ensures[C14,C18] fresh(result) && result != nil && card(result) == len(associations)
+//@   ensures[C14] forall k U :: (dom(result, k) <==> dom(associations, k)) && (dom(result, k) ==> get(result, k) == get(associations, k))
+
+//@ iface MapLike.GetValue
+//@   nopanic
+//@   ensures[C14] dom(this, key) ==> result == get(this, key)
+//@   ensures[C14] !dom(this, key) ==> result == zero(V)
+//@ iface MapLike.SetValue
+//@   nopanic
+//@   modifies mapof(this)
+//@   ensures[C14] dom(this, key) && get(this, key) == value && card(this) == old(card(this)) + ite(old(dom(this, key)), 0, 1)
+//@   ensures[C14] forall k U :: k != key ==> (dom(this, k) <==> old(dom(this, k))) && get(this, k) == old(get(this, k))
+//@ iface MapLike.RemoveValue
+//@   nopanic
+//@   modifies mapof(this)
+//@   ensures[C14] old(dom(this, key)) ==> result == old(get(this, key))
+//@   ensures[C14] !old(dom(this, key)) ==> result == zero(V)
+//@   ensures[C14] !dom(this, key) && card(this) == old(card(this)) - ite(old(dom(this, key)), 1, 0)
+//@   ensures[C14] forall k U :: k != key ==> (dom(this, k) <==> old(dom(this, k))) && get(this, k) == old(get(this, k))
+//@ iface MapLike.IsEmpty
+//@   nopanic
+//@   ensures[C14] result <==> card(this) == 0
+//@ iface MapLike.GetSize
+//@   nopanic
+//@   ensures[C14] result == card(this)
+//@ iface MapLike.AsArray
+//@   nopanic
+//@   ensures[C14,C18] fresh(result) && len(result) == card(this) && ukeys(view(result))
+//@   ensures[C14] forall i :: 0 <= i && i < len(result) ==> result[i] != nil && fresh(result[i]) && dom(this, akey(result[i])) && aval(result[i]) == get(this, akey(result[i]))
+//@   ensures[C14] forall k U :: dom(this, k) ==> kmem(view(result), k)
+//@ iface MapLike.GetIterator
+//@   nopanic
+//@   ensures[C14,C17] fresh(result) && result != nil && pos(result) == 0 && len(snap(result)) == card(this) && ukeys(snap(result))
+//@   ensures[C14] forall i :: 0 <= i && i < len(snap(result)) ==> snap(result)[i] != nil && dom(this, akey(snap(result)[i])) && aval(snap(result)[i]) == get(this, akey(snap(result)[i]))
+//@   ensures[C14] forall k U :: dom(this, k) ==> kmem(snap(result), k)
+//@ iface MapLike.GetKeys
+//@   nopanic
+//@   ensures[C14,C18] fresh(result) && result != nil && len(view(result)) == card(this) && distinct(view(result))
+//@   ensures[C14] forall i :: 0 <= i && i < len(view(result)) ==> dom(this, view(result)[i])
+//@   ensures[C14] forall k U :: dom(this, k) ==> kin(view(result), k)
+//@ iface MapLike.GetValues
+//@   nopanic
+//@   ensures[C14,C18] fresh(result) && result != nil && len(view(result)) == len(view(keys))
+//@   ensures[C14] forall j :: 0 <= j && j < len(view(keys)) ==> view(result)[j] == ite(dom(this, view(keys)[j]), get(this, view(keys)[j]), zero(V))
+//@ iface MapLike.RemoveAll
+//@   nopanic
+//@   modifies mapof(this)
+//@   ensures[C14] card(this) == 0 && (forall k U :: !dom(this, k))
+
+//@ func (*mapClass_).Make
+//@   props C14
+//@   implements MapClassLike.Make
+//@ func (*mapClass_).MakeFromMap
+//@   props C14 C18
+//@   implements MapClassLike.MakeFromMap
+//@   loop 1:
+//@     invariant 0 <= $rpos && $rpos <= len($enum) && duplicate != nil && fresh(duplicate) && duplicate != associations
+//@     invariant card(duplicate) == $rpos && (forall k U :: dom(duplicate, k) <==> (exists i :: 0 <= i && i < $rpos && $enum[i] == k))
+//@     invariant forall k U :: dom(duplicate, k) ==> get(duplicate, k) == get(associations, k)
+//@     decreases len($enum) - $rpos
+
+//@ func (map_).GetValue
+//@   props C14
+//@   implements MapLike.GetValue
+//@ func (map_).SetValue
+//@   props C14
+//@   implements MapLike.SetValue
+//@ func (map_).RemoveValue
+//@   props C14
+//@   implements MapLike.RemoveValue
+//@ func (map_).IsEmpty
+//@   props C14
+//@   implements MapLike.IsEmpty
+//@ func (map_).GetSize
+//@   props C14
+//@   implements MapLike.GetSize
+//@ func (map_).AsArray
+//@   props C14 C18
+//@   implements MapLike.AsArray
+//@   loop 1:
+//@     invariant 0 <= $rpos && $rpos <= len($enum) && index == $rpos && len(array) == len($enum) && fresh(array)
+//@     invariant forall i :: 0 <= i && i < index ==> array[i] != nil && fresh(array[i]) && akey(array[i]) == $enum[i] && aval(array[i]) == get(this, $enum[i])
+//@     decreases len($enum) - $rpos
+//@ func (map_).GetIterator
+//@   props C14 C17 C18
+//@   implements MapLike.GetIterator
+
+//@ lemma[C14] kin_drop: forall s Seq, p Int, k U :: 0 <= p && p < len(s) ==> (kin(s[p:len(s)], k) <==> s[p] == k || kin(s[p+1:len(s)], k))
+//@ lemma[C14] kin_drop_all: forall s Seq, k U :: !kin(s[len(s):len(s)], k)
+//@ lemma[C14] kin_drop_none: forall s Seq, k U :: kin(s[0:len(s)], k) <==> kin(s, k)
+
+// lastkey(s, i): no later association in s has the same key as s[i] (the one that wins in a constructor)
+//@ define lastkey(s, i, n) := forall j :: i < j && j < n ==> akey(s[j]) != akey(s[i])
+
+//@ iface MapClassLike.MakeFromArray
+//@   nopanic
+//@   ensures[C14,C18] fresh(result) && result != nil
+//@   ensures[C14] forall k U :: dom(result, k) ==> kmem(view(associations), k)
+//@   ensures[C14] forall i :: 0 <= i && i < len(associations) ==> dom(result, akey(associations[i])) && (lastkey(view(associations), i, len(associations)) ==> get(result, akey(associations[i])) == aval(associations[i]))
+//@ iface MapClassLike.MakeFromSequence
+//@   nopanic
+//@   ensures[C14,C18] fresh(result) && result != nil
+//@   ensures[C14] forall k U :: dom(result, k) ==> kmem(view(associations), k)
+//@   ensures[C14] forall i :: 0 <= i && i < len(view(associations)) ==> dom(result, akey(view(associations)[i])) && (lastkey(view(associations), i, len(view(associations))) ==> get(result, akey(view(associations)[i])) == aval(view(associations)[i]))
+
+//@ lemma[C14] kmem_snoc: forall s Seq, p Int, k U :: 0 <= p && p < len(s) ==> (kmem(s[0:p+1], k) <==> kmem(s[0:p], k) || akey(s[p]) == k)
+//@ lemma[C14] kmem_take_none: forall s Seq, k U :: !kmem(s[0:0], k)
+//@ lemma[C14] kmem_take_all: forall s Seq, k U :: kmem(s[0:len(s)], k) <==> kmem(s, k)
+
+//@ func (*mapClass_).MakeFromArray
+//@   props C14 C18
+//@   implements MapClassLike.MakeFromArray
+//@   uses kmem_snoc, kmem_take_none, kmem_take_all
+//@   let n := len(associations)
+//@   let s := view(associations)
+//@   requires forall i :: 0 <= i && i < len(associations) ==> associations[i] != nil
+//@   loop 1:
+//@     invariant -1 <= rangeindex && rangeindex <= n - 1 && duplicate != nil && fresh(duplicate)
+//@     invariant forall k U :: dom(duplicate, k) ==> kmem(s[0:rangeindex + 1], k)
+//@     invariant forall i :: 0 <= i && i <= rangeindex ==> dom(duplicate, akey(s[i])) && (lastkey(s, i, rangeindex + 1) ==> get(duplicate, akey(s[i])) == aval(s[i]))
+//@     decreases n - rangeindex
+//@ func (*mapClass_).MakeFromSequence
+//@   props C14 C18
+//@   implements MapClassLike.MakeFromSequence
+//@   uses kmem_snoc, kmem_take_none, kmem_take_all
+//@   let s := view(associations)
+//@   requires forall i :: 0 <= i && i < len(view(associations)) ==> view(associations)[i] != nil
+//@   loop 1:
+//@     invariant 0 <= index && index <= size && size == len(s) && pos(iterator) == index && snap(iterator) == s && duplicate != nil && fresh(duplicate)
+//@     invariant forall k U :: dom(duplicate, k) ==> kmem(s[0:index], k)
+//@     invariant forall i :: 0 <= i && i < index ==> dom(duplicate, akey(s[i])) && (lastkey(s, i, index) ==> get(duplicate, akey(s[i])) == aval(s[i]))
+//@     decreases size - index
+
+//@ func (map_).GetKeys
+//@   props C14 C18
+//@   implements MapLike.GetKeys
+//@   loop 1:
+//@     invariant index == pos(iterator) + 1 && 0 <= pos(iterator) && pos(iterator) <= size && len(snap(iterator)) == size && len(view(keys)) == size && fresh(keys)
+//@     invariant ukeys(snap(iterator)) && (forall i :: 0 <= i && i < size ==> snap(iterator)[i] != nil && dom(this, akey(snap(iterator)[i])))
+//@     invariant forall j :: 0 <= j && j < pos(iterator) ==> view(keys)[j] == akey(snap(iterator)[j])
+//@     invariant forall k U :: dom(this, k) ==> kmem(snap(iterator), k)
+//@     decreases size - pos(iterator)
+//@ func (map_).GetValues
+//@   props C14 C18
+//@   implements MapLike.GetValues
+//@   loop 1:
+//@     invariant index == pos(iterator) + 1 && 0 <= pos(iterator) && pos(iterator) <= size && snap(iterator) == old(view(keys)) && len(snap(iterator)) == size && len(view(values)) == size && fresh(values)
+//@     invariant forall j :: 0 <= j && j < pos(iterator) ==> view(values)[j] == ite(dom(this, old(view(keys))[j]), get(this, old(view(keys))[j]), zero(V))
+//@     decreases size - pos(iterator)
+//@ func (map_).RemoveAll
+//@   props C14
+//@   implements MapLike.RemoveAll
+//@   uses kin_drop, kin_drop_all, kin_drop_none
+//@   loop 1:
+//@     invariant 0 <= pos(iterator) && pos(iterator) <= len(snap(iterator)) && distinct(snap(iterator)) && this != nil
+//@     invariant card(this) == len(snap(iterator)) - pos(iterator)
+//@     invariant forall j :: pos(iterator) <= j && j < len(snap(iterator)) ==> dom(this, snap(iterator)[j])
+//@     invariant forall k U :: dom(this, k) ==> kin(snap(iterator)[pos(iterator) : len(snap(iterator))], k)
+//@     decreases len(snap(iterator)) - pos(iterator)
